@@ -279,7 +279,58 @@ def discharge(ob: Oblig, timeout_ms=10000, seed=0, use_cvc5=True):
         if r2 == "unsat":
             out["verdict"] = "unsat"; out["backend"] = "cvc5"
         out["time_s"] = round(time.time() - t0, 4)
+    if out["verdict"] == "unknown":
+        # counter-model search by fixing the class of one object (sound for `sat`: an added equation can only lose models)
+        # last resort for an undecided obligation: one long run (on the unchanged tree nothing gets here; after a change a
+        # genuine counter-model of a large function can need more than the per-obligation budget, observed 8-20 s)
+        s_, r_ = _check(ob.pc, ob.goal, 6 * timeout_ms, seed + 1)
+        if r_ == z3.sat:
+            out.update({"verdict": "sat", "model": extract_model(s_.model(), ob), "stage": "long-retry", "backend": "z3"})
+        elif r_ == z3.unsat:
+            out.update({"verdict": "unsat", "stage": "long-retry", "backend": "z3"})
+        else:
+            cs = _class_enum(ob, timeout_ms, seed)
+            if cs is not None:
+                out.update(cs)
+        out["time_s"] = round(time.time() - t0, 4)
     return out
+
+
+def _class_enum(ob, timeout_ms, seed):
+    """The solver wanders in the class-interval disjunctions of exception objects: try `cls_of(x) == c` for every class
+    id c that the formula itself compares cls_of(x) with (interval end points and their neighbours)."""
+    terms = {}
+    seen = set()
+    stack = list(ob.pc) + [ob.goal]
+    while stack:
+        x = stack.pop()
+        if x.get_id() in seen:
+            continue
+        seen.add(x.get_id())
+        if z3.is_quantifier(x):
+            stack.append(x.body()); continue
+        if not z3.is_app(x):
+            continue
+        if x.decl().kind() in (z3.Z3_OP_LE, z3.Z3_OP_GE, z3.Z3_OP_EQ, z3.Z3_OP_LT, z3.Z3_OP_GT) and x.num_args() == 2:
+            a, b = x.arg(0), x.arg(1)
+            for u, v in ((a, b), (b, a)):
+                if z3.is_app(u) and u.decl().name() == "cls_of" and z3.is_int_value(v):
+                    ent = terms.setdefault(u.get_id(), (u, set()))
+                    n = v.as_long()
+                    ent[1].update((n - 1, n, n + 1))
+        stack.extend(x.children())
+    cands = sorted(terms.values(), key=lambda e: -len(e[1]))[:3]
+    t_end = time.time() + 3.0 * timeout_ms / 1000
+    for u, ids in cands:
+        if len(ids) < 6:
+            continue
+        for c in sorted(ids):
+            if time.time() > t_end:
+                return None
+            s_, r_ = _check(list(ob.pc) + [u == c], ob.goal, min(timeout_ms, 2500), seed)
+            if r_ == z3.sat:
+                return {"verdict": "sat", "model": extract_model(s_.model(), ob), "stage": "class-enumeration", "backend": "z3"}
+    return None
 
 
 def _case_split(ob, timeout_ms, seed, max_cases=24):
